@@ -221,10 +221,13 @@ func ruleC02c(c *Ctx, rule string) {
 			}
 		}
 	}
-	okM := len(mu) == 1 && mu[0] == "(*z.rowStore).processInserts"
-	okU := len(up) == 1 && up[0] == "(*z.rowStore).processInserts"
-	c.check(rule, "only processInserts records memstore offsets", token.NoPos, okM, "single writer", "memstore.offsetsBySource entries are written in: "+joinS(mu)+" — offsets and rows can get out of step")
-	c.check(rule, "only processInserts updates the memstore tree", token.NoPos, okU, "single writer", "the memstore tree is updated in: "+joinS(up))
+	pi := c.P.Func("(*z.rowStore).processInserts")
+	ap, _ := ingestApplier(c.P)
+	home := ap != nil && pi != nil && privateHelperOf(c.P, ap, pi)
+	okM := home && len(mu) == 1 && mu[0] == stableName(ap)
+	okU := home && len(up) == 1 && up[0] == stableName(ap)
+	c.check(rule, "only processInserts records memstore offsets", token.NoPos, okM, "single writer (processInserts or its private helper)", "memstore.offsetsBySource entries are written in: "+joinS(mu)+" — offsets and rows can get out of step")
+	c.check(rule, "only processInserts updates the memstore tree", token.NoPos, okU, "single writer (processInserts or its private helper)", "the memstore tree is updated in: "+joinS(up))
 }
 
 func joinS(s []string) string {
